@@ -160,7 +160,7 @@ fn drive_simple(opts: &Opts, level: &str, label: &str, cases: u64, rule: &str, f
             "violations": rep.violations.iter().map(|v| json!({"class": v.class, "summary": v.summary, "subseed": v.subseed, "replay": v.replay})).collect::<Vec<_>>(),
         });
         write_json(std::path::Path::new(path), &v);
-        println!("C14 library leg: evaluations={} violations={} -> {path}", rep.evaluations, rep.violations.len());
+        println!("{} library leg: evaluations={} violations={} -> {path}", opts.property, rep.evaluations, rep.violations.len());
         return 0;
     }
     rep.finish()
